@@ -38,7 +38,18 @@ func (s *Session) allFieldsOf(env *Env, t types.Type, obj Term) []modTarget {
 	case *types.Struct:
 		if isOpaque(t) {
 			s.heapSort("F_"+typeKey(t)+"_$state", ArrSort(SInt, SInt))
-			return []modTarget{{Key: "F_" + typeKey(t) + "_$state", Idx: obj}}
+			out := []modTarget{{Key: "F_" + typeKey(t) + "_$state", Idx: obj}}
+			// fields of external structs that the code reads or writes directly
+			for i := 0; i < u.NumFields(); i++ {
+				if !isStructLike(u.Field(i).Type()) {
+					k, so := fieldKey(t, i)
+					if _, used := s.hsort[k]; used {
+						s.heapSort(k, so)
+						out = append(out, modTarget{Key: k, Idx: obj})
+					}
+				}
+			}
+			return out
 		}
 		for i := 0; i < u.NumFields(); i++ {
 			ft := u.Field(i).Type()
